@@ -251,6 +251,12 @@ func runFaultMatrix(t *testing.T, rc *RunCtx) {
 		return
 	}
 	r := w.res[0]
+	if r != nil && r.Panic != "" {
+		// the request ended in a panic on the handler's goroutine: with no recovery in the gRPC server that is the
+		// daemon's death, under a fault that a daemon is meant to answer with "no"
+		rc.Violate("C06", "panic-under-fault", fmt.Sprintf("%s: %s", fc, truncate(r.Panic, 600)), w.s.Step)
+		return
+	}
 	rc.Logf("%s: %s -> %v", fc, o, r.States)
 	// With a non-32-byte domain there is no defined signing root: M2 is not applicable, M3 is.
 	Monitor(rc, w.ledger, pop, o, r, w.s.Step, false)
@@ -426,6 +432,10 @@ func runFaults(t *testing.T, rc *RunCtx) {
 			continue
 		}
 		o, r := w.ops[i], w.res[i]
+		if r.Panic != "" && len(touched[tk.ID]) > 0 {
+			rc.Violate("C06", "panic-under-fault", fmt.Sprintf("%s: %s", o, truncate(r.Panic, 600)), tk.ReturnStep)
+			continue
+		}
 		rc.Logf("t%d %s -> %v touched=%v", tk.ID, o, r.States, touched[tk.ID])
 		Monitor(rc, w.ledger, w.pop, o, r, tk.ReturnStep, false)
 		slashable := o.Kind == "att" || o.Kind == "atts" || o.Kind == "prop"
